@@ -61,6 +61,8 @@ func gen(off int64, n int, tag byte) []byte {
 
 var w *rec.W
 
+var watchdogAfter = 400 * time.Second
+
 type reach struct {
 	want int64
 	ch   chan struct{}
@@ -276,6 +278,14 @@ func max(a, b int) int {
 
 func main() {
 	logrus.SetOutput(io.Discard)
+	// watchdog: a driver that cannot finish means some library call never returned
+	time.AfterFunc(watchdogAfter, func() {
+		if w != nil {
+			w.Ev("stuck", "sc", -1, "after_s", int(watchdogAfter.Seconds()))
+			w.Close()
+		}
+		os.Exit(3)
+	})
 	var scheds []sched
 	b, err := os.ReadFile(os.Args[1])
 	if err != nil {
